@@ -44,7 +44,19 @@ def main(argv):
         c.units.append(UnitSpec(nm.lower(), sorted(set(t for t, _ in F)), [(t, "libcellml::" + f) for t, f in F], string_model="sid",
                                 models=("exact.h", "sidstr.h"), spec_header="specs/C11/spec.h", harness_file="specs/C11/harness.c",
                                 prelude="#define HEAP_TOOLS 1\n#define H_%s 1" % nm.upper(), rec_stubs=["Component_clone"]))
+    EQ = ["makeEquivalence", "applyEquivalenceMapToModel", "recordVariableEquivalences", "generateEquivalenceMap", "getVariableLocatedAt",
+          "indexStackOf(std::shared_ptr<libcellml::Variable> const&)"]
+    c.units.append(UnitSpec("equiv", ["utilities.cpp"], [("utilities.cpp", "libcellml::" + f) for f in EQ], string_model="sid", models=("exact.h", "sidstr.h"),
+                            spec_header="specs/C11/equiv.h", harness_file="specs/C11/equiv_harness.c", rec_stubs=["generateEquivalenceMap"]))
     D = {"HEAP_N": 8, "REF_T": "unsigned", "VMAP_CAP": 1}
+    DE = {"HEAP_N": 8, "REF_T": "unsigned", "VVEC_CAP": 3, "VMAP_CAP": 3, "MAXW": 2}
+    getters = ["ComponentEntity_componentCount", "ComponentEntity_component__sz", "Component_variableCount", "Component_variable__sz", "ParentedEntity_parent",
+               "Variable_equivalentVariableCount", "Variable_equivalentVariable", "getComponentIndexInComponentEntity", "indexOf", "Variable_addEquivalence__ref_ref"]
+
+    def HE(name, kind, enforce, replace, unwind, bound, carries):
+        h = Harness(name, kind, enforce=enforce, replace=replace, defines=DE, unwind=unwind, backend="sat", timeout=1500, object_bits=12, bound=bound, carries=carries)
+        h.harness_unwind = 12
+        return ("equiv", h)
     c.harnesses = [
         ("reset", Harness("h_Reset_order_invariant", "F", defines=D, unwind=10, timeout=300,
                           carries="representation invariant of Reset: an unset order is stored as 0 (create, setOrder, removeOrder)")),
@@ -67,12 +79,27 @@ def main(argv):
         ("model", Harness("h_Model_clone", "B", defines=dict(D, HEAP_N=14, VVEC_CAP=3, MAXN=2), unwind=4, timeout=900, bound="<= 2 units and <= 2 components",
                           carries="Model::clone: id, name, encapsulation id; units and components cloned in order and owned by the clone; no parent; frame - BOUNDED")),
     ]
+    c.harnesses += [
+        HE("h_makeEquivalence", "F", "makeEquivalence", getters + ["getVariableLocatedAt"], 6, None,
+           "makeEquivalence(path1, path2, model): afterwards the variables located at the two paths are DIRECTLY equivalent, and no existing equivalence is lost (complete: loop-free)"),
+        HE("h_applyEquivalenceMap", "B", None, ["makeEquivalence"], 5, "<= 2 keys with <= 2 paths each, paths of length <= 3",
+           "applyEquivalenceMapToModel: makeEquivalence is called, in the given model, for EVERY (variable path, equivalent variable path) pair of the map - BOUNDED"),
+        HE("h_recordVariableEquivalences", "B", None, getters + ["indexStackOf__ref"], 5, "<= 2 variables with <= 2 equivalent variables each; running path of length <= 2",
+           "recordVariableEquivalences: the map entry keyed by a variable's path lists the paths of ALL its equivalent variables, in order; running path restored - BOUNDED"),
+        HE("h_path_roundtrip", "B", None, getters, 6, "trees of depth <= 3 (model, component, child component), <= 2 children / variables per object",
+           "getVariableLocatedAt(indexStackOf(v), model of v) == v: a path recorded in the original designates the corresponding variable of a tree of the same shape - BOUNDED"),
+        HE("h_generateEquivalenceMap", "B", None, getters + ["recordVariableEquivalences", "generateEquivalenceMap__rec"], 5, "<= 2 child components; recursion = the function's own contract",
+           "generateEquivalenceMap: every child component is recorded and descended into under the parent's path extended by its index; running path restored - BOUNDED width, inductive in depth"),
+    ]
     c.trusted_base = [
+        "equiv unit: the object tree is ghost tables read through contract stubs of the getters (componentCount, component(i), variable(i), parent, "
+        "equivalentVariable(j), indexOf, getComponentIndexInComponentEntity); Variable::addEquivalence is a contract stub (each lists the other afterwards: C09's obligation)",
         "create() is a fresh object with the defaults of the implementation record (in-class initialisers read from the AST)",
         "clone() of a child is a contract stub: a fresh object equal to the child (the obligation proved for that class in its own harness)",
         "Units::addUnit is a contract stub (appends the attributes; its prefix normalisation is idempotent)",
         "strings as identities; exact bounded vectors; canonical object ids (symmetry)",
-        "Model::clone: fixComponentUnits and the re-creation of variable equivalences through EquivalenceMap are NOT under contract (no-op stubs); "
+        "Model::clone: fixComponentUnits is NOT under contract (no-op stub); the re-creation of variable equivalences is under contract function by function "
+        "(equiv unit) and Model::clone is checked to call record/generate for every top-level component with path [index] and to apply the map to the CLONE; "
         "they are exercised only by the native clone fuzz (printed clone == printed original, equivalences included)",
     ]
     c.explanation = ("Per-class obligations on C lowered from the real clone() functions and every setter/getter/add* they call: field-by-field "
